@@ -46,7 +46,7 @@ BOUNDS = {
     "thorough": "all 3-definition managers, both builds, abs/round builtins and computed keys in definitions",
 }
 OUTSIDE = "more than 4 tasks or 2 arguments; division by zero (excluded by the property)"
-REQUIRED_CLASSES = ["programs", "two_arguments", "text_checked", "regenerated_after_redefinition"]
+REQUIRED_CLASSES = ["programs", "two_arguments", "text_checked", "regenerated_after_redefinition", "generated_while_frozen"]
 PROFILE_CASES = 4
 TASKS_PER_CHILD = 50
 LOCS = ["a", "b", "c", "n.x", "l0"]
@@ -103,7 +103,13 @@ def generate_and_compare(ex, case, st, tw, args, tag, suffix=""):
     names = [f"x{i}" for i in range(len(args))]
     kw = {nm: U.getref(st.r, L) for nm, L in zip(names, args)}
     det = {"definitions": {k: U.show(v) for k, v in st.defs.items()}, "arguments": list(args)}
+    frozen = bool(case.get("frozen"))
     try:
+        if frozen:
+            # setters are generated (and called) while the tree is frozen, the graph is edited in between
+            st.m.freeze_tree()
+            tw.m.freeze_tree()
+            note(ex, "generated_while_frozen")
         src = st.m.mk_fun("setter", **kw)
         f = st.m.gen_fun("setter", **kw)
     except (Abort, Inconclusive):
@@ -131,6 +137,9 @@ def generate_and_compare(ex, case, st, tw, args, tag, suffix=""):
             U.assign(tw.r, L, v)
     o1 = _out(lambda: f(*vals))
     o2 = _out(_assign_all)
+    if frozen:
+        st.m.unfreeze_tree()
+        tw.m.unfreeze_tree()
     if o1 != o2:
         ex.fail(f"the generated function gives {o1 or 'a result'} where assignment through the manager gives {o2 or 'a result'}{tag}", det)
         return False
@@ -214,6 +223,8 @@ def cases(tier):
                 for how in ("load", "unreg_assign", "unreg_register", "assign"):
                     out.append({"build": b, "defs": defs, "args": [free[0]],
                                 "redefine": {"target": t, "dsc": ["sub", ["loc", free[0]], ["const", 3]], "how": how}})
+                out.append({"build": b, "defs": defs, "args": [free[0]], "frozen": True,
+                            "redefine": {"target": t, "dsc": ["sub", ["loc", free[0]], ["const", 3]], "how": "assign"}})
         for defs in mans:
             free = [L for L in LOCS if L not in {t for t, _ in defs}]
             for a in free:
